@@ -59,7 +59,29 @@ def c18(ctx):
     ctx.gotest("grpcutil", "^TestVerifC18", race=False, timeout=1800)
 
 
+def c20(ctx):
+    ctx.gotest("compression", "^TestVerifC20", race=False, timeout=1800)
+    ctx.gotest("tracer", "^TestVerifC20", race=False, timeout=600)
+    ctx.gotest("internal", "^TestVerifC20", race=False, timeout=600)
+    ctx.gotest("refserver", "^TestVerifC20", race=False, timeout=900)
+    if "refclient" in PKG_HAS and "c20" in PKG_HAS["refclient"]:
+        ctx.gotest("refclient", "^TestVerifC20", race=False, timeout=900)
+
+
+import os as _os
+PKG_HAS = {}
+for _d in _os.listdir(_os.path.join(_os.path.dirname(_os.path.abspath(__file__)), "..", "harness")):
+    _p = _os.path.join(_os.path.dirname(_os.path.abspath(__file__)), "..", "harness", _d)
+    if _os.path.isdir(_p):
+        PKG_HAS[_d] = set(x for f in _os.listdir(_p) for x in __import__("re").findall(r"c\d\d", f.split("_")[0]))
+
+
 SPECS = {
+    "C20": {"fn": c20, "level": "exploration",
+            "technique": "runtime monitoring: pool-protocol histories (connect-go's reset/close/reuse discipline) with injected corrupt and truncated streams on the real compressor/decompressor instances; independent use of each named algorithm as oracle; wire exchange with the real reference peers",
+            "text": "For each of the six encodings one pooled compressor and decompressor instance is driven through every history of length 4 over {valid, bit-flip, cut, garbage, empty, independent-encoder} (longer random ones in thorough), plus every single-bit flip and cut of short streams followed by a valid decode; every valid decode must be exact. Compressor output must be decodable by an independent implementation of the algorithm the name denotes - for the enum, the registered constructors, tracer.GetDecompressor (any letter case), the raw-payload encoder, and the real reference server on the wire.",
+            "note": "Corruption detection is not claimed (brotli/identity have no integrity check) - only that later valid input decodes correctly and nothing crashes.",
+            "assumptions": ["stdlib gzip/zlib, andybalholm/brotli, klauspost/zstd and golang/snappy used directly are the meaning of the encoding names"]},
     "C18": {"fn": c18, "level": "exploration",
             "technique": "runtime monitoring: round-trip (inverse) laws evaluated on the real conversion functions and strict codecs over seeded random values and an exhaustive length<=2 slice for percent-encoding",
             "text": "The exported conversion functions are executed on 10^4-10^6 generated errors (all codes, UTF-8 messages, details with canonical and deliberately non-canonical encodings), header lists (mixed case, repeated keys, binary keys), all byte strings of length <=2 plus random ones, and random conformance messages; the oracle is the inverse law of each pair, input immutability and rejection of unknown fields.",
